@@ -44,6 +44,8 @@ TOL_FD = 1e-5       # finite differences
 TOL_FD_PS = 1e-3    # finite differences through the plane-stress iteration (see check_tangent)
 TOL_STATE = 1e-9    # returned stress vs stress of the returned state / inequalities after a local Newton
 TOL_SOLVERS = 1e-8
+TOL_COMMIT = 1e-3   # committed state vs state integrated at the saved displacement: the global Newton updates u once
+#                     after its last assembly, so the two differ by the last (sub-tolerance) correction, ~1e-6 observed
 
 
 # ------------------------------------------------------------------------------------------
@@ -223,6 +225,12 @@ def check_tangent(case, rec):
     Ne, nPg = int(path["Ne"]), int(path["nPg"])
     mode, dt = spec["mode"], float(spec["dt"])
     beh = cr.build_behaviour(spec, Ne)
+    # the difference quotient is taken on a second instance whose local stopping tolerances are tightened
+    # (documented solver settings), so that it is the derivative of the return map and not of solver noise
+    # (1e-10 C on sigma divided by 2h); the tangent under test comes from the untouched instance
+    fdb = cr.build_behaviour(spec, Ne)
+    fdb._tol = 1e-13
+    fdb._planeStress_tol = 1e-13
     ref = cr.Ref(spec, beh.C, beh.layout.slots)
     sc = Scales(spec, ref)
     sg = cr.sig_of(spec)
@@ -249,7 +257,7 @@ def check_tangent(case, rec):
         Calg = np.asarray(Calg, float)
         epsP = (eps[:, :, None, :] + pert[None, None]).reshape(Ne, nPg * K, nc)
         zP = FeArray.asfearray(np.repeat(z0, K, axis=1))
-        sigP, _, znP, okP = integrate(beh, epsP, zP, dt)
+        sigP, _, znP, okP = integrate(fdb, epsP, zP, dt)
         sigP = np.asarray(sigP, float).reshape(Ne, nPg, 3, nc, 2, nc)
         okP = np.asarray(okP, bool).reshape(Ne, nPg, 3, nc, 2)
         if hasp:
@@ -505,7 +513,7 @@ def check_simu(case, rec):
                     if not np.asarray(ok, bool).all():
                         raise Inconclusive("local solve did not converge at the saved displacement")
                     scale = max(ey, float(np.abs(np.asarray(eps)).max()))
-                    rec.close(after[key] - np.asarray(zexp, float), scale, 1e-6, "save_commits_converged_step",
+                    rec.close(after[key] - np.asarray(zexp, float), scale, TOL_COMMIT, "save_commits_converged_step",
                               f"op {k}: state committed by Save_Iter is not the integrated state of the saved step;", **sg)
             saved.append((after, u, level))
             if hasp and any(v[..., beh.layout.slots["p"]].max() > 0 for v in after.values()):
